@@ -15,14 +15,31 @@ def HistoryOk {K I : Type} (size : I → Nat) (evs : List (Event K I How)) : Pro
     | .crash inp how _ => how.Ok (size inp)
     | _ => True
 
+/-- the key discipline of the repaired file name: operators with the same curve name AND the same
+configuration text have the same leaf -/
 theorem sl_key_discipline (F : Family C E V) (hash : List Char → Hh) (repr : E → List Char)
     (hhash : ∀ a b, hash a = hash b → a = b) (hrepr : GoodRepr repr)
     (hcurve : ∀ c, '[' ∉ F.curve c)
-    (hdisc : ∀ c c', F.curve c = F.curve c' → F.leaf c = F.leaf c') :
+    (hdisc : ∀ c c', F.curve c = F.curve c' → F.cfg c = F.cfg c' → F.leaf c = F.leaf c') :
     KeyDiscipline (slSpec F hash repr) (slPure F) := by
   intro i i' _ _ hk
   simp only [slSpec, slKey, Prod.mk.injEq] at hk
-  obtain ⟨hc, hts, htr⟩ := keyText_inj hrepr _ _ (hcurve i.1) (hcurve i'.1) _ _ _ _ (hhash _ _ hk.2.2.2)
+  obtain ⟨hc, hts, htr, hg⟩ :=
+    keyText_inj hrepr _ _ (hcurve i.1) (hcurve i'.1) _ _ _ _ _ _ (hhash _ _ hk.2.2.2)
+  unfold slPure
+  rw [hdisc _ _ hc hg, hts, htr]
+
+/-- the (stronger) discipline the file name needed before the repair of finding F7: operators with the
+same curve name have the same leaf, whatever their configuration -/
+theorem sl_key_discipline_unfixed (F : Family C E V) (hash : List Char → Hh) (repr : E → List Char)
+    (hhash : ∀ a b, hash a = hash b → a = b) (hrepr : GoodRepr repr)
+    (hcurve : ∀ c, '[' ∉ F.curve c)
+    (hdisc : ∀ c c', F.curve c = F.curve c' → F.leaf c = F.leaf c') :
+    KeyDiscipline (slSpecUnfixed F hash repr) (slPure F) := by
+  intro i i' _ _ hk
+  simp only [slSpecUnfixed, slKeyUnfixed, Prod.mk.injEq] at hk
+  obtain ⟨hc, hts, htr⟩ :=
+    keyTextUnfixed_inj hrepr _ _ (hcurve i.1) (hcurve i'.1) _ _ _ _ (hhash _ _ hk.2.2.2)
   unfold slPure
   rw [hdisc _ _ hc, hts, htr]
 
@@ -59,10 +76,11 @@ theorem unaryRepr_good : GoodRepr unaryRepr := by
 /-- ten elements: a 10 × 10 matrix is the smallest that is cached -/
 def tenElems : List Nat := [0, 1, 2, 3, 4, 5, 6, 7, 8, 9]
 
-/-- two configurations of one operator family (`pw_exact = false / true`) on the same curve: the leaves
-differ, the curve name does not -/
+/-- two configurations of one operator family (`quad_order = 12`, `pw_exact = false / true`) on the same
+curve: the leaves and the configuration texts `(12, False)` / `(12, True)` differ, the curve name does not -/
 def twoConfigs : Family Bool Nat Nat where
   curve := fun _ => ['U', 'n', 'i', 't', 'S', 'q', 'u', 'a', 'r', 'e']
+  cfg := fun pwExact => cfgText 12 pwExact
   leaf := fun pwExact => ⟨fun _ _ => if pwExact then 2 else 1, fun _ _ => false⟩
 
 /-- two time slabs, two elements each; leaf = an injective token of the pair, 0 on acausal pairs -/
@@ -80,6 +98,13 @@ theorem exLeaf_causal : exLeaf.Causal := by
 
 /-- a schedule with 3 workers, chunks of 1, completion order reversed -/
 def exSched : Schedule := ⟨3, 1, fun c => c + 1, [3, 2, 1, 0]⟩
+
+/-- the configurations `(quad_order, pw_exact)` of operators on one curve, each with a leaf of its own:
+the configuration text is Python's `str((quad_order, pw_exact))` -/
+def pyConfigs (curve : List Char) (leaf : Nat × Bool → Leaf E V) : Family (Nat × Bool) E V where
+  curve := fun _ => curve
+  cfg := fun c => cfgText c.1 c.2
+  leaf := leaf
 
 theorem exSched_valid : exSched.Valid exElems.length := by
   refine ⟨by decide, by decide, ?_⟩
